@@ -69,7 +69,11 @@ var osErrnos = []string{"epipe", "enospc", "eio", "edquot"}
 func TestEnumErrno(t *testing.T) {
 	var cases []fcase
 	add := func(sh shape, w string, z bool, salt int, stride func(size int) int, per int) {
-		base := fcase{Writer: w, Sizes: sh.Sizes, Arrival: arrivals4[0], SeqLen: sh.SeqLen, Gzip: z, Close: true, Workers: 1}
+		arrivals := arrivals4
+		if len(sh.Sizes) == 3 {
+			arrivals = arrivals3
+		}
+		base := fcase{Writer: w, Sizes: sh.Sizes, Arrival: arrivals[0], SeqLen: sh.SeqLen, Gzip: z, Close: true, Workers: 1}
 		size := refLen(base)
 		for i, k := range keyOffsets(base, stride(size)) {
 			for j := 0; j < per; j++ {
@@ -78,7 +82,7 @@ func TestEnumErrno(t *testing.T) {
 				c.K = int64(k)
 				c.Errno = osErrnos[(r+j)%len(osErrnos)]
 				c.Fault = writeKinds[(r/4)%3]
-				c.Arrival = arrivals4[(r/2)%len(arrivals4)]
+				c.Arrival = arrivals[(r/2)%len(arrivals)]
 				c.Close = (r/5)%2 == 0
 				cases = append(cases, c)
 			}
@@ -86,7 +90,7 @@ func TestEnumErrno(t *testing.T) {
 		// a failing Close with each errno
 		for ei, e := range osErrnos {
 			c := base
-			c.Fault, c.Errno, c.Arrival = "close", e, arrivals4[(ei+salt)%len(arrivals4)]
+			c.Fault, c.Errno, c.Arrival = "close", e, arrivals[(ei+salt)%len(arrivals)]
 			cases = append(cases, c)
 		}
 	}
